@@ -76,6 +76,11 @@ def xf_names(m, n, hermitian=False):
               "allneg", "nonpos", "nearreal", "twodeps", "halfdep_top", "halfdep_bot"]
     names += ["nearreal:10", "nearreal:14", "nearreal:20", "nearunit:+", "nearunit:-", "nearunit:cols", "blocktri2", "col0_hess"]
     names += ["blockdiag1", "blockdiag2", "arrow", "zero_row1", "zerosum:low2", "zerosum:low1", "zerosum:up1", "zerosum:all", "zerosum:imag"]
+    # a sub-diagonal pivot that is tiny but genuine next to an O(1) rest of its column (2^-24 .. 2^-36 of the column norm)
+    names += ["tinysub:24", "tinysub:30", "tinysub:36"]
+    # (n+1) x n / n x (n+1): one row (column) a combination of the others plus a 2^-e perturbation, the last one scaled by 0.2
+    if m != n:
+        names += ["linedep:28", "linedep:35", "linedep:42"]
     # nearly structured inputs at several magnitudes: structured part O(1), everything else scaled by 2^-e
     names += [f"near:{st}:{e}" for st in ("diag", "tridiag", "hess", "triu") for e in (20, 30, 40, 48)]
     if m == n:
@@ -221,6 +226,30 @@ def xf_build(name, m, n, fill, hermitian=False):
             if not q.any():
                 q[0] = 1.0
             A[:, j] = O.qmul(A[:, 0], np.broadcast_to(q, (m, 4))) + np.ldexp(base[:, j], -17)
+    elif name.startswith("tinysub:"):
+        A = base.copy()
+        e = int(name.split(":")[1])
+        if m >= 2:
+            q = np.array([0.75, -0.5, 1.0, 0.25]) if not hermitian else np.array([0.75, -0.5, 1.0, 0.25])
+            A[1, 0] = np.ldexp(q, -e)
+            if hermitian:
+                A[0, 1] = A[1, 0] * np.array([1.0, -1.0, -1.0, -1.0])
+    elif name.startswith("linedep:"):
+        e = int(name.split(":")[1])
+        A = base.copy()
+        tall = m > n
+        L = A if tall else np.transpose(A, (1, 0, 2)).copy()
+        k = L.shape[0]
+        if k >= 3:
+            comb = np.zeros_like(L[0])
+            for t in range(k - 2):
+                c = fill.dyadic((4,), bits=1, lo=-2, hi=2)
+                if not c.any():
+                    c[0] = 1.0
+                comb = comb + (O.qmul(np.broadcast_to(c, L[t].shape), L[t]) if tall else O.qmul(L[t], np.broadcast_to(c, L[t].shape)))
+            L[k - 2] = comb + np.ldexp(L[k - 2], -e)
+        L[k - 1] = 0.2 * L[k - 1]
+        A = L if tall else np.transpose(L, (1, 0, 2)).copy()
     elif name == "depcol1":  # column 1 an exact right multiple of column 0 (rank n-1, the dependency sits in the LEADING columns)
         A = base.copy()
         if n >= 2:
